@@ -115,6 +115,18 @@ TOL = {"C": 8.0, "Ca": 16.0, "Ck": 16.0, "Cchol": 4.0, "cap": 1e-3}
 # True: reported as a violation (mechanism sample_joint:variance_inflated_by_fixed_initial_jitter_1e-5);
 # False: only counted (joint_offset:1e-5).
 JOINT_INITIAL_JITTER_IS_FINDING = True
+# Composition classes of the kind "composed" (kernel trees the library ships: product of a stationary and a
+# non-stationary factor, wrapped or not in a WarpedKernel whose warping acts on the non-stationary factor).
+COMP_CLASSES = [
+    "warp(prod(matern,expdecay))", "warp(prod(matern,expdecay))", "warp(prod(expdecay,matern))",
+    "warp(prod(matern,freezethaw))", "prod(matern,expdecay)", "prod(matern,freezethaw)",
+    "warp(prod(matern,matern))", "warp(expdecay)", "warp(freezethaw)",
+]
+# FabolasKernelFunction.forward reads the internal value of u1 for u1, u2 and u3, diagonal() the real ones:
+# diag(K(X,X)) != diagonal(X) as soon as u2 != u1 or u3 != log(u1) (candidate finding C08-F2, reproducer in
+# .scratch/kf_C08.json). The classes with a Fabolas factor are generated only when this is True.
+INCLUDE_FABOLAS = False
+FABOLAS_CLASSES = ["warp(prod(matern,fabolas))", "prod(matern,fabolas)"]
 
 _G = {}
 
@@ -137,7 +149,7 @@ def _imports():
     from syne_tune.optimizer.schedulers.searchers.bayesopt.gpautograd import constants
     from syne_tune.optimizer.schedulers.searchers.bayesopt.gpautograd.kernel import (
         Matern52, ProductKernelFunction, RangeKernelFunction, ExponentialDecayResourcesKernelFunction,
-        ExponentialDecayResourcesMeanFunction,
+        ExponentialDecayResourcesMeanFunction, FreezeThawKernelFunction, FabolasKernelFunction,
     )
     from syne_tune.optimizer.schedulers.searchers.bayesopt.gpautograd.warping import Warping, WarpedKernel
     from syne_tune.optimizer.schedulers.searchers.bayesopt.gpautograd.mean import (
@@ -157,7 +169,7 @@ def _imports():
 
 # ----------------------------------------------------------------------------------- sizes / floors
 KINDS = ["matern", "jitter", "gpr", "matern", "jitter", "warped", "matern", "jitter", "product", "gpr",
-         "jitter", "range", "matern", "jitter", "expdecay", "warped"]
+         "jitter", "range", "matern", "jitter", "expdecay", "warped", "composed", "composed", "composed"]
 
 
 def cases(tier, seed):
@@ -343,6 +355,159 @@ def _matern(rng, d, spec, o):
     return k, ib, c, req["ard"]
 
 
+def _expdecay(rng, dx, spec, o):
+    """ExponentialDecayResourcesKernelFunction over (x (dx), r); parameters log-uniform in their boxes."""
+    G = _imports()
+    kx, ib, c, ard = _matern(rng, dx, spec, o)
+    mx = G["ScalarMeanFunction"]()
+    mx.collect_params().initialize()
+    delta_fixed = None
+    r = rng.random()
+    if r < 0.3:
+        delta_fixed = 0.0
+    elif r < 0.5:
+        delta_fixed = float(rng.uniform(0, 1))
+    k = G["ExponentialDecayResourcesKernelFunction"](kx, mx, delta_fixed_value=delta_fixed)
+    k.collect_params().initialize()
+    pd = dict(k.get_params())
+    pd["alpha"] = _logu(rng, 1e-6 * 1.01, 250.0 * 0.99, corner=0.03)
+    pd["mean_lam"] = _logu(rng, 1e-4 * 1.01, 50.0 * 0.99, corner=0.03)
+    pd["gamma"] = _logu(rng, 1e-4 * 1.01, 1.0 * 0.99, corner=0.03)
+    if delta_fixed is None:
+        pd["delta"] = float(rng.choice([0.0, 1.0, rng.uniform(0, 1), rng.uniform(0, 1)]))
+    pd["meanx_mean_value"] = float(rng.normal() * 0.3)
+    k.set_params({kk: _f(v) for kk, v in pd.items()})
+    kscale = c * 4.0 + (abs(pd["gamma"]) + abs(pd["meanx_mean_value"])) ** 2
+    return k, ib, c, ard, kscale
+
+
+def _leaf(rng, what, spec, o):
+    """One factor of a composed kernel: dict(kernel, dim, kscale, jf, rfparts, nonstat, res_cols, ard, ard_dim, c)."""
+    G = _imports()
+    if what == "matern":
+        d = int(rng.integers(1, 4))
+        k, ib, c, ard = _matern(rng, d, spec, o)
+        return dict(kernel=k, dim=d, kscale=c, jf=1.0, rfparts=[(slice(0, d), ib)], nonstat=False, res_cols=[],
+                    ard=ard, ard_dim=d if ard else 0, c=c)
+    if what == "expdecay":
+        dx = int(rng.integers(1, 4))
+        k, ib, c, ard, kscale = _expdecay(rng, dx, spec, o)
+        return dict(kernel=k, dim=dx + 1, kscale=kscale, jf=1.0, rfparts=[(slice(0, dx), ib)], nonstat=True,
+                    res_cols=[dx], ard=ard, ard_dim=dx if ard else 0, c=c)
+    if what == "freezethaw":
+        dx = int(rng.integers(1, 4))
+        kx, ib, c, ard = _matern(rng, dx, spec, o)
+        mx = G["ScalarMeanFunction"]()
+        mx.collect_params().initialize()
+        k = G["FreezeThawKernelFunction"](kx, mx)
+        k.collect_params().initialize()
+        pd = {kk: _f(v) for kk, v in k.get_params().items()}
+        pd["alpha"] = _logu(rng, 1e-6 * 1.01, 250.0 * 0.99, corner=0.03)
+        pd["mean_lam"] = _logu(rng, 1e-4 * 1.01, 50.0 * 0.99, corner=0.03)
+        pd["gamma"] = _logu(rng, 1e-4 * 1.01, 1.0 * 0.99, corner=0.03)
+        pd["meanx_mean_value"] = float(rng.normal() * 0.3)
+        k.set_params(pd)
+        return dict(kernel=k, dim=dx + 1, kscale=c + pd["gamma"] ** 2, jf=1.0, rfparts=[(slice(0, dx), ib)],
+                    nonstat=True, res_cols=[dx], ard=ard, ard_dim=dx if ard else 0, c=c)
+    if what == "fabolas":
+        k = G["FabolasKernelFunction"]()
+        k.collect_params().initialize()
+        u1, u2, u3 = _logu(rng, 1e-3, 1e3), _logu(rng, 1e-3, 1e3), float(rng.normal())
+        k.set_params({"u1": u1, "u2": u2, "u3": u3})
+        return dict(kernel=k, dim=1, kscale=(u1 + abs(u3)) ** 2 + u2 ** 2 + u1 ** 2 * (2 + abs(math.log(u1))) ** 2,
+                    jf=0.0, rfparts=[], nonstat=True, res_cols=[], ard=False, ard_dim=0, c=u1)
+    raise ValueError(what)
+
+
+def _build_composed(rng, spec, o, M):
+    """Kernel trees: [warp(] prod(a, b) [)] or warp(leaf); the warping acts on the non-stationary factor's
+    coordinates (sometimes on everything, sometimes on a random range)."""
+    G = _imports()
+    classes = COMP_CLASSES + (FABOLAS_CLASSES * 2 if INCLUDE_FABOLAS else [])
+    cls = spec.get("comp", classes[int(rng.integers(0, len(classes)))])
+    warp = cls.startswith("warp(")
+    inner = cls[5:-1] if warp else cls
+    if inner.startswith("prod("):
+        na, nb = inner[5:-1].split(",")
+        A, B = _leaf(rng, na, spec, o), _leaf(rng, nb, spec, o)
+        kernel = G["ProductKernelFunction"](A["kernel"], B["kernel"])
+        dim = A["dim"] + B["dim"]
+        off = A["dim"]
+        rfparts = list(A["rfparts"]) + [(slice(sl.start + off, sl.stop + off), ib) for sl, ib in B["rfparts"]]
+        res_cols = list(A["res_cols"]) + [c_ + off for c_ in B["res_cols"]]
+        kscale, jf = A["kscale"] * B["kscale"], A["jf"] + B["jf"]
+        blocks = [(0, A["dim"], A["nonstat"]), (off, dim, B["nonstat"])]
+        ard, ard_dim, c_ne_1 = A["ard"] or B["ard"], max(A["ard_dim"], B["ard_dim"]), (A["c"] * B["c"] != 1.0)
+    else:
+        A = _leaf(rng, inner, spec, o)
+        kernel, dim, rfparts, res_cols = A["kernel"], A["dim"], list(A["rfparts"]), list(A["res_cols"])
+        kscale, jf = A["kscale"], A["jf"]
+        blocks = [(0, dim, A["nonstat"])]
+        ard, ard_dim, c_ne_1 = A["ard"], A["ard_dim"], (A["c"] != 1.0)
+    M.d = dim
+    M.wpars = None
+    if warp:
+        ns = [(lo, hi) for lo, hi, nonstat in blocks if nonstat]
+        u = rng.random()
+        if ns and u < 0.6:
+            ranges = [ns[0]]  # exactly the non-stationary factor's coordinates
+        elif u < 0.8 or dim == 1:
+            ranges = [(0, dim)]
+        else:
+            lo = int(rng.integers(0, dim - 1))
+            ranges = [(lo, int(rng.integers(lo + 1, dim + 1)))]
+        kernel, M.code_warp, M.wpars = _wrap_warping(rng, kernel, dim, ranges, o)
+        M.rf_input = M.code_warp
+    M.kernel, M.kscale, M.jf, M.rfparts, M.own = kernel, kscale, max(jf, 1.0), rfparts, None
+    M.res_cols = res_cols
+    M.comp = cls
+    M.flags.update(ard=ard, c_ne_1=c_ne_1, ard_dim=ard_dim)
+    M.pars = {"class": cls, "params": {kk: _f(v) for kk, v in kernel.get_params().items()}}
+    # set_params(get_params()) on the composed kernel must route every value back to where it came from
+    if rng.random() < 0.5:
+        g1 = {kk: _f(v) for kk, v in kernel.get_params().items()}
+        _call(o, "kernel.set_params", kernel.set_params, dict(g1))
+        _same_params(o, g1, kernel.get_params(), "composed")
+        o.count("roundtrip:composed")
+
+
+def _wrap_warping(rng, kernel, dim, ranges, o):
+    """WarpedKernel(kernel, [Warping(range) ...]) with non-identity powers installed through set_params.
+    Returns (warped kernel, function applying the code's warpings, [(lo, hi, a, b)] installed values)."""
+    G = _imports()
+    warps, wpars = [], []
+    for (lo, hi) in ranges:
+        w = G["Warping"](dim, (lo, hi))
+        w.collect_params().initialize()
+        size = hi - lo
+        a = [_logu(rng, 0.25, 4.0) for _ in range(size)]
+        b = [_logu(rng, 0.25, 4.0) for _ in range(size)]
+        one = size == 1
+        pd = {}
+        for i in range(size):
+            pd["power_a" if one else f"power_a_{i}"] = a[i]
+            pd["power_b" if one else f"power_b_{i}"] = b[i]
+        w.set_params(pd)
+        g = w.get_params()
+        ga = np.array([_f(g["power_a" if one else f"power_a_{i}"]) for i in range(size)])
+        gb = np.array([_f(g["power_b" if one else f"power_b_{i}"]) for i in range(size)])
+        a, b = np.array(a), np.array(b)  # the reference uses the installed values
+        o.count("decided:param_readback", 2 * size)
+        if np.any(np.abs(ga - a) > 1e-12 * a) or np.any(np.abs(gb - b) > 1e-12 * b):
+            o.violate("parameters", "set_params_value_not_taken:warping_power",
+                      {"set_a": a.tolist(), "get_a": ga.tolist(), "set_b": b.tolist(), "get_b": gb.tolist()})
+        warps.append(w)
+        wpars.append((lo, hi, a, b))
+
+    def code_warp(X):
+        W = X
+        for w in warps:
+            W = np.asarray(w(W))
+        return W
+
+    return G["WarpedKernel"](kernel=kernel, warpings=warps), code_warp, wpars
+
+
 def build_model(rng, spec, o):
     G = _imports()
     kind = spec["kind"]
@@ -515,6 +680,9 @@ def build_model(rng, spec, o):
         M.rfparts = [(slice(0, d - 1), ib)]
         M.flags.update(ard=ard, c_ne_1=(c != 1.0), ard_dim=((d - 1) if ard else 0))
         M.pars = {kk: _f(v) for kk, v in k.get_params().items()}
+    elif kind == "composed":
+        _build_composed(rng, spec, o, M)
+        d = M.d
     else:
         raise ValueError(kind)
 
@@ -632,10 +800,11 @@ def gen_inputs(rng, spec, M):
             Xt[t] = Xt[int(rng.integers(0, t))]
         elif r < 0.45:
             Xt[t] = rng.integers(0, 2, size=d).astype(float)
-    if M.kind == "expdecay":
-        # resource attribute: mostly a small grid of levels
-        X[:, -1] = rng.integers(0, 9, size=n) / 8.0 if rng.random() < 0.7 else rng.uniform(size=n)
-        Xt[:, -1] = rng.integers(0, 9, size=nt) / 8.0
+    for col in ([-1] if M.kind == "expdecay" else getattr(M, "res_cols", [])):
+        # resource attribute: mostly a small grid of levels (rows duplicated above keep their configuration
+        # and get their own level)
+        X[:, col] = rng.integers(0, 9, size=n) / 8.0 if rng.random() < 0.7 else rng.uniform(size=n)
+        Xt[:, col] = rng.integers(0, 9, size=nt) / 8.0
     ysc = M.ysc
     base = M.mean_ref(X) if M.mean_kind == "scalar" else np.zeros(n)
     if rng.random() < 0.5:
@@ -708,11 +877,35 @@ def stage_kernel(o, M, X, Xt, rng, do_mp):
     # diag(K) == diagonal()  (documented sqrt regulariser => band 0.5*NJ*scale per factor)
     o.count("decided:kernel_diagonal", 2)
     jb = 0.5 * NJ * sc * M.jf * 1.02
+    diag_ok = True
+    comp = getattr(M, "comp", None)
     for nm, K_, d_, b_ in (("X", Kxx, dX, bxx), ("Xt", Ktt, dT, btt)):
         D = np.diag(K_) - d_
         band = jb + np.diag(b_)
         if _exceeds(D, band):
-            o.violate("kernel", "kernel:diag_differs_from_diagonal()", dict(_wit(D, band), which=nm))
+            diag_ok = False
+            o.violate("kernel", "kernel:diag_differs_from_diagonal()" + (":fabolas_factor" if comp and "fabolas" in comp else ""),
+                      dict(_wit(D, band), which=nm, kernel=comp or M.kind))
+    # diagonal_depends_on_X() == False promises an input-independent diagonal (WarpedKernel.diagonal relies on
+    # it to skip the warping): diagonal() at X, at X* and at fresh points, and the Gram diagonals, must agree
+    flag = _call(o, "kernel.diagonal_depends_on_X", k.diagonal_depends_on_X)
+    o.count("decided:diagonal_flag")
+    o.count("diagonal_flag:" + str(bool(flag)))
+    if not flag:
+        Xf = rng.uniform(size=(6, X.shape[1]))
+        Xf[0], Xf[1] = 0.0, 1.0
+        dF = np.asarray(_call(o, "kernel.diagonal", k.diagonal, Xf), dtype=np.float64).reshape(-1)
+        gF = np.diag(np.asarray(_call(o, "kernel(X,X)", k, Xf, Xf), dtype=np.float64))
+        alld = np.concatenate([dX, dT, dF])
+        allg = np.concatenate([np.diag(Kxx), np.diag(Ktt), gF])
+        rb = TOL["Ck"] * EPS * sc * float(np.max(_rf(M, Xf, Xf)))
+        spread_d = float(np.max(alld) - np.min(alld))
+        spread_g = float(np.max(allg) - np.min(allg))
+        if spread_d > 8 * EPS * sc or spread_g > 2 * (jb + float(np.max(np.diag(bxx))) + float(np.max(np.diag(btt))) + rb):
+            diag_ok = False
+            o.violate("kernel", "kernel:diagonal_depends_on_X_false_but_diagonal_varies",
+                      {"kernel": comp or M.kind, "spread_of_diagonal()": spread_d, "spread_of_gram_diagonal": spread_g,
+                       "scale": sc})
     # single pair calls
     pairs = [(int(rng.integers(0, n)), int(rng.integers(0, nt))) for _ in range(min(8, n * nt))]
     for (i, j) in pairs:
@@ -750,7 +943,7 @@ def stage_kernel(o, M, X, Xt, rng, do_mp):
         if _exceeds(dX - dref, 4 * EPS * sc) or _exceeds(dT - sc, 4 * EPS * sc):
             o.violate("kernel", "kernel:diagonal()_differs_from_covariance_scale",
                       {"diag": float(dX[0]), "scale": sc})
-    if M.kind == "warped":
+    if getattr(M, "wpars", None):
         W = M.code_warp(Xt)
         Wref = np.array(Xt, dtype=dg.WORK)
         bandw = np.zeros(Xt.shape)
@@ -778,7 +971,7 @@ def stage_kernel(o, M, X, Xt, rng, do_mp):
             D = Kxt[:, :3] - Kmp
             if _exceeds(D, bxt[:, :3]):
                 o.violate("kernel", "kernel:entry_differs_from_mpmath_matern52", _wit(D, bxt[:, :3]))
-    return {"Kxx": Kxx, "Kxt": Kxt, "Ktt": Ktt, "dX": dX, "dT": dT, "bxx": bxx, "bxt": bxt, "btt": btt}
+    return {"Kxx": Kxx, "Kxt": Kxt, "Ktt": Ktt, "dX": dX, "dT": dT, "bxx": bxx, "bxt": bxt, "btt": btt, "diag_ok": diag_ok}
 
 
 # ----------------------------------------------------------------------------------- stage J
@@ -1173,6 +1366,12 @@ def _run(spec, o, sig):
 
     # ---- stage K
     KS = stage_kernel(o, M, X, Xt, rng, do_mp)
+    if not KS["diag_ok"]:
+        # the prior variance is ambiguous (diagonal() disagrees with the Gram matrix): the posterior stages,
+        # which take k** and the new diagonal entries from diagonal(), would only repeat this
+        o.count("stopped_after_stage_K:diagonal_inconsistent")
+        sig.update(n=n, d=M.d, nt=nt, m=m, flags=M.flags, comp=getattr(M, "comp", None))
+        return
     cs = M.cs
     Kc = KS["Kxx"] * cs  # as the code forms it: kernel matrix times the (1,1) scale
     Kxt_c = KS["Kxt"] * cs
@@ -1439,10 +1638,14 @@ def _run(spec, o, sig):
         if n_near:
             o.count("cell:near_duplicates")
         o.count("cell:kind:" + kind)
+        if getattr(M, "comp", None):
+            o.count("cell:comp:" + M.comp)
+            if r >= 1:
+                o.count("cell:comp_chain:" + M.comp)
         if n == 1:
             o.count("cell:n_eq_1")
     sig.update(n=n, d=M.d, nt=nt, m=m, flags=M.flags, tuple=M.tuple, mean=M.mean_kind, jit=jit_classes,
-               ops=ops, expand=expand)
+               ops=ops, expand=expand, comp=getattr(M, "comp", None))
     o.sample = {"kind": kind, "n": n, "d": M.d, "n_test": nt, "columns": m, "noise_variance": sigma2,
                 "tuple_scale": cs if M.tuple else None, "mean": M.mean_kind, "pars": M.pars,
                 "exact_dups": n_exact, "near_dups": n_near, "chain": ops, "expand_fantasies": expand,
